@@ -11,29 +11,29 @@ import (
 
 // Frame is one (possibly inlined) function activation.
 type Frame struct {
-	c        *Ctx
-	eng      *Engine
-	info     *types.Info
-	fi       *FuncInfo
-	contract *Contract
-	depth    int
-	rets     []*RetState
-	loops    []*loopCtx
-	loopOrd  int
-	entry    *State // entry state of the function under contract (for old())
-	specOld  *State // when evaluating a spec expr: the "old" state
-	resVals  map[types.Object]*Term
-	resObjs  []types.Object
-	top      *Frame
-	inSpec   bool
-	addrTaken map[types.Object]bool
-	parent   *Frame
-	lit      *ast.FuncLit
-	ghosts   map[string]types.Object
+	c               *Ctx
+	eng             *Engine
+	info            *types.Info
+	fi              *FuncInfo
+	contract        *Contract
+	depth           int
+	rets            []*RetState
+	loops           []*loopCtx
+	loopOrd         int
+	entry           *State // entry state of the function under contract (for old())
+	specOld         *State // when evaluating a spec expr: the "old" state
+	resVals         map[types.Object]*Term
+	resObjs         []types.Object
+	top             *Frame
+	inSpec          bool
+	addrTaken       map[types.Object]bool
+	parent          *Frame
+	lit             *ast.FuncLit
+	ghosts          map[string]types.Object
 	pendingCopyBack []copyBack
-	pureDepth int
-	lastKey  *Term
-	ghostSets map[types.Object]bool
+	pureDepth       int
+	lastKey         *Term
+	ghostSets       map[types.Object]bool
 }
 
 type RetState struct {
